@@ -14,7 +14,6 @@ import (
 
 	"github.com/iotaledger/hive.go/runtime/event"
 	"github.com/iotaledger/hive.go/runtime/promise"
-	"github.com/iotaledger/hive.go/runtime/valuenotifier"
 	"github.com/iotaledger/hive.go/runtime/workerpool"
 )
 
@@ -352,10 +351,20 @@ func (w *world) execPT(f []string) (string, string) {
 func (w *world) execHW(f []string) (string, string) {
 	in := cutArrow(f)
 	p, ok := atoiAll(in)
-	if !ok || len(p) != 3 || p[0] < 1 || p[0] > 64 || p[1] < 1 || p[1] > 100000 || p[2] < 1 || p[2] > 64 {
+	if !ok || (len(p) != 3 && len(p) != 4) || p[0] < 1 || p[0] > 64 || p[1] < 1 || p[1] > 100000 || p[2] < 1 || p[2] > 64 || (len(p) == 4 && p[3] != 1) {
 		return "hw " + strings.Join(f, " "), "bad-op"
 	}
 	g, k, hn := p[0], p[1], p[2]
+	// pooled variant (4th parameter 1): the hooks of the hookers are pooled (WithWorkerPool on the hook); the windows are
+	// the same, the calls are counted once the pool has drained
+	var pool *workerpool.WorkerPool
+	var hookOpts []event.Option
+	var seqMu sync.Mutex
+	if len(p) == 4 {
+		pool = workerpool.New("c15hw", workerpool.WithWorkerCount(3)).Start()
+		hookOpts = append(hookOpts, event.WithWorkerPool(pool))
+		defer pool.Shutdown() // not waiting for ShutdownComplete (C16's subject)
+	}
 	e := event.New1[int]()
 	t := g * k
 	seqs := make([][]int32, t) // per trigger (argument = trigger id): the hooks called, in call order
@@ -410,8 +419,12 @@ func (w *world) execHW(f []string) (string, string) {
 				var hook *event.Hook[func(int)]
 				hook = e.Hook(func(arg int) {
 					h.calls.Add(1)
+					if pool != nil {
+						seqMu.Lock()
+						defer seqMu.Unlock()
+					}
 					seqs[arg] = append(seqs[arg], int32(a*perHooker+b)+1)
-				})
+				}, hookOpts...)
 				h.s2 = started.Load()
 				if h.unhook {
 					time.Sleep(time.Duration((a*11+b*5)%60) * time.Microsecond)
@@ -425,6 +438,13 @@ func (w *world) execHW(f []string) (string, string) {
 	close(start)
 	if !waitTimeout(&wg) {
 		w.fail("hang", "hook-window stress goroutines did not finish", map[string]string{"oracle": "hang", "api": "event.Trigger", "mode": "stress"})
+	}
+	mode := ""
+	if pool != nil {
+		mode = " 1"
+		if !guarded(func() { pool.PendingTasksCounter.WaitIsZero() }) {
+			w.fail("hang", "worker pool did not drain", map[string]string{"oracle": "hang", "api": "workerpool.PendingTasksCounter", "mode": "hook-window"})
+		}
 	}
 	// no hook twice within one Trigger
 	unordered := 0
@@ -466,7 +486,7 @@ func (w *world) execHW(f []string) (string, string) {
 	}
 	w.res.nontrivial = true
 
-	return fmt.Sprintf("hw %d %d %d => %s", g, k, hn, strings.Join(out, " ")), "accept"
+	return fmt.Sprintf("hw %d %d %d%s => %s", g, k, hn, mode, strings.Join(out, " ")), "accept"
 }
 
 // execHC: G goroutines call Hook K times each at the same time, then one Trigger: every hook exactly once.
@@ -752,6 +772,9 @@ func genStress(rng *hx.Rng, scale int) [][]string {
 	for i := 0; i < 8*scale; i++ {
 		cases = append(cases, []string{fmt.Sprintf("hw %d %d %d", 2+rng.Intn(4), hx.Pick(rng, []int{20, 200, 1000}), 1+rng.Intn(5))})
 	}
+	for i := 0; i < 4*scale; i++ { // the hookers' hooks pooled
+		cases = append(cases, []string{fmt.Sprintf("hw %d %d %d 1", 2+rng.Intn(4), hx.Pick(rng, []int{20, 200, 1000}), 1+rng.Intn(5))})
+	}
 
 	return cases
 }
@@ -948,7 +971,9 @@ func (w *world) execVD(f []string) (string, string) {
 		return "vd " + strings.Join(f, " "), "bad-op"
 	}
 	values, k := p[0], p[1]
-	n := valuenotifier.New[int]()
+	kt := vnKeyTypes[(values+k/1000)%len(vnKeyTypes)] // the key type of the notifier varies with the parameters
+	n := newVNNotifier(kt)
+	w.count("vd:keytype:" + kt)
 	ctx, cancel := context.WithCancel(context.Background())
 	cancel()
 	var okCount, other atomic.Int64
